@@ -252,3 +252,66 @@ Theorem dok_fancy_refuted :
        end.
 Proof. exact dok_fancy_refuted_proof. Qed.
 Print Assumptions dok_fancy_refuted.
+
+(* (4') GCXS.__getitem__ = _compressed/indexing.getitem (Model/GcxsGetitem.v: normalisation, the
+   full-slice shortcut, get_single_element, the compressed / uncompressed bookkeeping, convert_to_flat,
+   the two selection kernels, the re-splitting `uncompressed // size`, shape and compressed-axes
+   bookkeeping), for every WELL-FORMED 2-d GCXS array (CSR: compressed_axes = [0]; CSC: [1]) and every
+   basic index without None (integers, slices with any start/stop/step, Ellipsis, fewer entries than
+   axes): the result has NumPy's shape, the same fill value and the dense meaning NumPy prescribes
+   (gcxs_getitem_den) and is again well-formed — sorted rows, consistent indptr, compressed_axes
+   dropped for a 1-d result (gcxs_getitem_wf); an all-integer index gives the element; NumPy's
+   IndexError cases raise IndexError.  In fact the result is GCXS.from_coo of the COO result
+   (Proofs/GcxsGetitem2dP.v).  Clauses (findings, refuted below): None in the index with no / one
+   surviving axis (D22, D27) or after an integer (D28), a 0-d array (D22); not covered by a proof:
+   ndim >= 3, None in the remaining positions, index arrays (D21), unsigned index dtypes. *)
+From Verif Require Import GCXS GcxsGetitem GcxsGetitem2dP.
+Theorem gcxs_getitem_den_2d_partial :
+  forall (V : Type) (veqb : V -> V -> bool) (add : V -> V -> V) (kf : nat -> nat)
+         (g : gcxs V) (d0 d1 a : Z) (ix : index),
+    gcxs_wfb g = true -> g_shape g = [d0; d1] -> g_caxes g = [a] ->
+    no_zero_step ix = true -> basic ix = true -> no_new ix = true ->
+    match np_index [d0; d1] ix with
+    | Raise e => gcxs_getitem V veqb add kf g ix = Raise e /\ e = IndexError
+    | Ok (sh', gsrc) =>
+      match gcxs_getitem V veqb add kf g ix with
+      | Ok (GGArr g') => g_shape g' = sh' /\ g_fill g' = g_fill g
+                         /\ forall j, in_range sh' j -> gden g' j = gden g (gsrc j)
+      | Ok (GGScalar v) => sh' = [] /\ v = gden g (gsrc [])
+      | Raise _ => False
+      end
+    end.
+Proof. exact gcxs_getitem_den_2d_proof. Qed.
+Print Assumptions gcxs_getitem_den_2d_partial.
+
+Theorem gcxs_getitem_wf_2d_partial :
+  forall (V : Type) (veqb : V -> V -> bool) (add : V -> V -> V) (kf : nat -> nat)
+         (g : gcxs V) (d0 d1 a : Z) (ix : index) (g' : gcxs V),
+    gcxs_wfb g = true -> g_shape g = [d0; d1] -> g_caxes g = [a] ->
+    no_zero_step ix = true -> basic ix = true -> no_new ix = true ->
+    gcxs_getitem V veqb add kf g ix = Ok (GGArr g') -> gcxs_wfb g' = true.
+Proof. exact gcxs_getitem_wf_2d_proof. Qed.
+Print Assumptions gcxs_getitem_wf_2d_partial.
+
+Theorem gcxs_getitem_d22_refuted :
+  (let g := mkGCXS [] [] [3] [] [] 0 in
+   gcxs_wfb g = true /\ (exists sh' s, np_index (g_shape g) [] = Ok (sh', s)) /\ rx_get g [] = Raise TypeError)
+  /\
+  (let g := Convert.gcxs_from_coo rx_c2 [0] in let ix := [IInt 0; INone; IInt 1] in
+   gcxs_wfb g = true /\ (exists s, np_index (g_shape g) ix = Ok ([1], s)) /\ rx_get g ix = Raise IndexError).
+Proof. exact gcxs_getitem_d22_refuted_proof. Qed.
+Print Assumptions gcxs_getitem_d22_refuted.
+
+Theorem gcxs_getitem_d27_refuted :
+  let g := Convert.gcxs_from_coo rx_c2 [0] in let ix := [INone; IInt 1; rx_full] in
+  gcxs_wfb g = true /\ (exists s, np_index (g_shape g) ix = Ok ([1; 3], s))
+  /\ match rx_get g ix with Ok (GGArr g') => g_shape g' = [1; 3] /\ gcxs_wfb g' = false | _ => False end.
+Proof. exact gcxs_getitem_d27_refuted_proof. Qed.
+Print Assumptions gcxs_getitem_d27_refuted.
+
+Theorem gcxs_getitem_d28_refuted :
+  let g := Convert.gcxs_from_coo rx_c3 [0] in let ix := [IInt 0; INone; rx_full; rx_full] in
+  gcxs_wfb g = true /\ (exists s, np_index (g_shape g) ix = Ok ([1; 2; 2], s))
+  /\ match rx_get g ix with Ok (GGArr g') => g_shape g' = [2; 1; 2] | _ => False end.
+Proof. exact gcxs_getitem_d28_refuted_proof. Qed.
+Print Assumptions gcxs_getitem_d28_refuted.
